@@ -2,7 +2,7 @@
    Models: C15/Boundary.v (src/boundary.c), C15/Tree.v (src/tree.c: functional PR-octree, dump checker, gravity data). *)
 From Coq Require Import ZArith List Bool Reals Permutation.
 From RV Require Import Common.Num Common.RealNum C15.Boundary C15.Tree C15.Tree2 C15.Update C15.BoundaryProofs C15.TreeProofs C15.GravityProofs
-  C15.CanonProofs C15.ForestProofs C15.UpdateProofs C15.PruneProofs.
+  C15.CanonProofs C15.ForestProofs C15.UpdateProofs C15.PruneProofs Gen.UsesTree C15.UsesTree.
 Import ListNotations.
 
 (* Periodic wrap of one coordinate (both C while-loops), any box length L>0, any x: once the fuel covers |x|/L the
@@ -178,6 +178,28 @@ Theorem C15_flagged_removal_indices : forall u pos flagged l c t arr t', wf u po
   wf u pos' l c (relabel (idx arr') t') /\ Permutation (leaves (relabel (idx arr') t')) (seq 0 (length arr')).
 Proof. exact flagged_removal_indices. Qed.
 Print Assumptions C15_flagged_removal_indices.
+
+(* ===== round 3: one predicate "the tree is in use" for every decision site =====
+   Regenerated from the current source (Gen/UsesTree.v): the conditions of reb_input_fields (rebuild after restore/copy),
+   reb_simulation_add_local (insert), reb_simulation_move_to_com (update) ARE uses_tree for every gravity/collision mode and
+   every flag value; the step's condition is (tree_needs_update || uses_tree); gravity data are refreshed iff the tree exists
+   and tree gravity is selected; and uses_tree selects exactly the modules whose loops walk tree_root (collision TREE and
+   LINETREE, gravity TREE).  A site that drops an alternative makes this false. *)
+Theorem C15_uses_tree_sites_agree : all_sites_agree = true.
+Proof. vm_compute. reflexivity. Qed.
+Print Assumptions C15_uses_tree_sites_agree.
+Theorem C15_uses_tree_spec : forall s, In s sites_maintain ->
+  forall g k, In (g, k) all_modes -> forall p r, ceval (snd s) g k p r = uses_tree g k.
+Proof.
+  intros s Hs g k Hgk p r. pose proof C15_uses_tree_sites_agree as H. unfold all_sites_agree in H.
+  do 5 (apply andb_prop in H; destruct H as [H _]).
+  rewrite forallb_forall in H. specialize (H s Hs). unfold site_maintain_ok in H.
+  rewrite forallb_forall in H. specialize (H (g, k) Hgk). cbn [fst snd] in H.
+  rewrite forallb_forall in H. assert (Hp : In p bools) by (destruct p; cbn; auto). specialize (H p Hp).
+  rewrite forallb_forall in H. assert (Hr : In r bools) by (destruct r; cbn; auto). specialize (H r Hr).
+  apply Bool.eqb_prop in H. exact H.
+Qed.
+Print Assumptions C15_uses_tree_spec.
 
 (* Non-vacuity: three particles in a cell of level 3 (half-width 8) around the origin, two of them in the same
    octant two levels deep: the insertions succeed, the result is a node of 3 whose leaf list is [2;1;0]-permuted,
